@@ -349,6 +349,7 @@ type c15Obs struct {
 	JSON  string // canonical JSON of the value ("" unless mode j)
 	Type  string // Go type of the value
 	Err   string
+	Reuse string // modes "r" / "f": "same", or how the reused engine / formatter differed from a fresh one
 	Ast   string // mode "d" only: the syntax tree dump (parsed in the child: a parser that hangs must not hang the harness)
 }
 
@@ -480,7 +481,105 @@ func c15fmtClass(f q.Formatter, res interface{}) (cls string) {
 }
 
 // c15evalOne runs one job in this process (only ever called inside a worker child).
+// c15classJSON evaluates with the given engine and renders class + canonical JSON.
+func c15classJSON(eng *q.Engine, texts []string) (s string) {
+	defer func() {
+		if r := recover(); r != nil {
+			s = "panic"
+		}
+	}()
+	res, err := eng.Evaluate(c15decodeAll(texts))
+	if err != nil {
+		return "error"
+	}
+	return "value " + c15jsonOf(res)
+}
+
+// c15reuseEngine (mode "r", documents a, b): one compiled query evaluated on a, then twice on b,
+// against a freshly compiled one on b.
+func c15reuseEngine(query string, texts []string) string {
+	eng, err := q.NewParser().ParseString(query)
+	if err != nil || len(texts) < 2 {
+		return "same"
+	}
+	first := c15classJSON(eng, texts[:1])
+	second := c15classJSON(eng, texts[1:2])
+	third := c15classJSON(eng, texts[1:2])
+	fresh, _ := q.NewParser().ParseString(query)
+	want := c15classJSON(fresh, texts[1:2])
+	if second != want {
+		return "after evaluating on another document (" + strings.SplitN(first, " ", 2)[0] + "): " + second + " / fresh: " + want
+	}
+	if third != want {
+		return "third evaluation: " + third + " / fresh: " + want
+	}
+	return "same"
+}
+
+// c15reuseFormatters (mode "f", query = q1 \x01 q2): each formatter writes the result of q1 and
+// then the result of q2; what it writes for q2 must be what a fresh formatter writes.
+func c15reuseFormatters(query string, texts []string) (out string) {
+	defer func() {
+		if r := recover(); r != nil {
+			out = fmt.Sprintf("panic: %v", r)
+		}
+	}()
+	qs := strings.SplitN(query, "\x01", 2)
+	if len(qs) != 2 {
+		return "same"
+	}
+	var results []interface{}
+	for _, qq := range qs {
+		eng, err := q.NewParser().ParseString(qq)
+		if err != nil {
+			return "same"
+		}
+		res, err := eng.Evaluate(c15decodeAll(texts))
+		if err != nil {
+			return "same"
+		}
+		results = append(results, res)
+	}
+	mk := func(name string, w io.Writer) q.Formatter {
+		switch name {
+		case "json":
+			return &q.JSONFormatter{Writer: w}
+		case "pretty-json":
+			return &q.PrettyJSONFormatter{Writer: w}
+		case "csv":
+			return &q.CSVFormatter{Writer: w}
+		case "gedcom":
+			return &q.GEDCOMFormatter{Writer: w}
+		}
+		return &q.HTMLFormatter{Writer: w}
+	}
+	for _, name := range []string{"json", "pretty-json", "csv", "gedcom", "html"} {
+		var reused, fresh bytes.Buffer
+		f := mk(name, &reused)
+		c15fmtClass(f, results[0])
+		mark := reused.Len()
+		c1 := c15fmtClass(f, results[1])
+		c2 := c15fmtClass(mk(name, &fresh), results[1])
+		if c1 != c2 || !bytes.Equal(reused.Bytes()[mark:], fresh.Bytes()) {
+			return "formatter " + name + " reused after another result: " + c1 + " / fresh: " + c2
+		}
+	}
+	return "same"
+}
+
 func c15evalOne(query string, texts []string, mode string) (o c15Obs) {
+	if mode == "f" {
+		o.Parse, o.Raw, o.Top, o.Fmt = "ok", "-", "-", "-"
+		o.Reuse = c15reuseFormatters(query, texts)
+		return
+	}
+	if mode == "r" {
+		o.Reuse = c15reuseEngine(query, texts)
+		if len(texts) > 1 {
+			texts = texts[1:]
+		}
+		mode = "j"
+	}
 	func() {
 		defer func() {
 			if r := recover(); r != nil {
@@ -583,7 +682,7 @@ func c15runChunk(pool []*c15Doc, jobs []c15Job, res []c15Obs, lo, hi int, perJob
 	if bin == "" {
 		bin, _ = os.Executable()
 	}
-	runFrom := func(start, end int) (done int, cause string) {
+	runFrom := func(start, end int, perJob time.Duration) (done int, cause string) {
 		cmd := exec.Command(bin, "worker", "c15eval")
 		cmd.Env = append(os.Environ(), "GOMEMLIMIT=3GiB", "GOMAXPROCS=2")
 		stdin, _ := cmd.StdinPipe()
@@ -652,13 +751,18 @@ func c15runChunk(pool []*c15Doc, jobs []c15Job, res []c15Obs, lo, hi int, perJob
 	}
 	pos := lo
 	for pos < hi {
-		done, cause := runFrom(pos, hi)
+		done, cause := runFrom(pos, hi, perJob)
 		pos = done
 		if cause == "" || pos >= hi {
 			break
 		}
-		// the job at `pos` killed or stalled the child: confirm alone
-		d2, cause2 := runFrom(pos, pos+1)
+		// the job at `pos` killed or stalled the child: confirm alone, with a limit that a loaded
+		// machine cannot reach on the unchanged tree (three times the limit, at least 60 s)
+		confirm := 3 * perJob
+		if confirm < 60*time.Second {
+			confirm = 60 * time.Second
+		}
+		d2, cause2 := runFrom(pos, pos+1, confirm)
 		if d2 == pos {
 			if cause2 == "" {
 				cause2 = cause
@@ -721,6 +825,12 @@ var c15year = strconv.Itoa(time.Now().Year())
 func c15req(pool []*c15Doc, j c15Job) string {
 	if j.Mode == "d" {
 		j.Mode = "c"
+	}
+	if j.Mode == "r" { // the model sees what a fresh engine sees: the second document only
+		j.Mode = "j"
+		if len(j.Docs) > 1 {
+			j.Docs = j.Docs[1:]
+		}
 	}
 	return "qeval " + j.Mode + " " + c15year + " " + hexs(j.Query) + " " + c15docsWire(pool, j.Docs)
 }
@@ -1152,6 +1262,111 @@ func init() {
 				add("large-input", ".Individuals | Only(Document1 | .Individuals | Only(Combine(1)))", []int{id})
 			}
 		}
+		// boundary corpus (notes/boundary-audit.md): every size dimension of a query at and just past
+		// 8 / 64 / 65 (…): number of arguments, object fields, statements, variable chain length,
+		// pipeline length, number of documents, list lengths 1 and 1025
+		{
+			rep := func(x string, k int) []string {
+				out := make([]string, k)
+				for i := range out {
+					out[i] = x
+				}
+				return out
+			}
+			for _, fn := range []string{"First", "Last", "Only", "Combine", "NodesWithTagPath", "Length", "MergeDocumentsAndIndividuals", "Nope"} {
+				for _, k := range []int{0, 1, 2, 8, 64, 65} {
+					for _, arg := range []string{"1", ".Individuals", `"NAME"`, "Document1"} {
+						call := fn
+						if k > 0 {
+							call += "(" + strings.Join(rep(arg, k), ", ") + ")"
+						}
+						add("boundary-arguments", call, []int{3})
+						add("boundary-arguments", ".Individuals | "+call, []int{3, 2})
+					}
+				}
+			}
+			for _, k := range []int{0, 1, 8, 64, 65, 256} {
+				var fields, stmts, chain, chainRev, stages []string
+				for i := 0; i < k; i++ {
+					fields = append(fields, fmt.Sprintf("f%d: .Pointer", i))
+					stmts = append(stmts, fmt.Sprintf("V%d is %d", i, i))
+					stages = append(stages, "Only(1 = 1)")
+					if i == 0 {
+						chain = append(chain, "V0 is .Individuals")
+					} else {
+						chain = append(chain, fmt.Sprintf("V%d is V%d", i, i-1))
+					}
+				}
+				for i := len(chain) - 1; i >= 0; i-- {
+					chainRev = append(chainRev, chain[i])
+				}
+				jobs = append(jobs, c15Job{".Individuals | {" + strings.Join(fields, ", ") + "}", []int{3}, "j"})
+				jobs = append(jobs, c15Job{strings.Join(append(stmts, ".Individuals | Length"), "; "), []int{3}, "j"})
+				jobs = append(jobs, c15Job{strings.Join(append([]string{".Individuals"}, stages...), " | ") + " | Length", []int{3}, "j"})
+				if k > 0 {
+					last := fmt.Sprintf("V%d", k-1)
+					jobs = append(jobs, c15Job{strings.Join(append(chain, last+" | Length"), "; "), []int{3}, "j"})
+					jobs = append(jobs, c15Job{strings.Join(append(chainRev, ".Individuals | Only("+last+" | Length = 2) | Length"), "; "), []int{3}, "j"})
+					// the same chain closed into a cycle of length k
+					jobs = append(jobs, c15Job{strings.Join(append(append([]string{}, chain[1:]...), fmt.Sprintf("V0 is %s", last), last), "; "), []int{3}, "c"})
+				}
+				c.Count("source=boundary-sizes")
+			}
+			for _, k := range []int{1, 2, 8, 64, 65} { // number of documents
+				ids := make([]int, k)
+				for i := range ids {
+					ids[i] = []int{3, 2, 4}[i%3]
+				}
+				for _, query := range []string{fmt.Sprintf("Document%d | .Individuals | Length", k), fmt.Sprintf("Document%d", k+1), "?",
+					fmt.Sprintf("MergeDocumentsAndIndividuals(Document1, Document%d) | .Individuals | Length", k), fmt.Sprintf("Document%d is .Families; Document%d | .Individuals | Length", k, k)} {
+					jobs = append(jobs, c15Job{query, ids, "j"})
+					c.Count("source=boundary-documents")
+				}
+			}
+			for _, n := range []int{1, 1025} { // list lengths (0 is the empty document, 63…257 are the large inputs above)
+				if d, ok := c15mkDoc(c15bigDoc(n)); ok {
+					pool = append(pool, d)
+					id := len(pool) - 1
+					for _, query := range []string{
+						fmt.Sprintf(".Individuals | First(%d) | Length", n-1), fmt.Sprintf(".Individuals | First(%d) | Length", n), fmt.Sprintf(".Individuals | First(%d) | Length", n+1),
+						fmt.Sprintf(".Individuals | Last(%d) | Length", n-1), fmt.Sprintf(".Individuals | Last(%d) | Length", n), fmt.Sprintf(".Individuals | Last(%d) | Length", n+1),
+						".Individuals | Last(1) | .Pointer", ".Individuals | First(1) | .Pointer", ".Individuals | Only(1 = 1) | Length", ".Individuals | Only(.Nodes | .Tag)",
+						fmt.Sprintf(".Individuals | Only(.Pointer = \"I%d\") | .Pointer", n), "Combine(.Individuals, .Individuals) | Length", ".Nodes | Length",
+						".Individuals | {p: .Pointer} | Last(1)", ".Families | Last(2) | .Husband | .Individual | .Pointer", ".Individuals | Last(1) | .Spouses | Length"} {
+						jobs = append(jobs, c15Job{query, []int{id}, "j"})
+						c.Count("source=boundary-list-length")
+					}
+				}
+			}
+			// MergeDocumentsAndIndividuals on documents of 0 / 1 / 64 / 65 individuals
+			mergeIDs := map[int]int{0: 0}
+			for _, n := range []int{1, 64, 65} {
+				for id := nSmall; id < len(pool); id++ {
+					if len(pool[id].Forest) == 2*n+2 {
+						mergeIDs[n] = id
+					}
+				}
+			}
+			for _, pr := range [][2]int{{0, 1}, {1, 0}, {1, 64}, {64, 65}, {65, 65}} {
+				a, okA := mergeIDs[pr[0]]
+				b, okB := mergeIDs[pr[1]]
+				if okA && okB {
+					jobs = append(jobs, c15Job{"MergeDocumentsAndIndividuals(Document1, Document2) | .Individuals | Length", []int{a, b}, "c"})
+					c.Count("source=boundary-merge")
+				}
+			}
+			// formatter state: one formatter object writes two results with different column sets
+			fq := []string{".Individuals | {a: .Pointer}", ".Individuals | {b: .Pointer, c: .Value}", ".Individuals", ".Families", ".Individuals | .Name", ".Individuals | Length",
+				`"x"`, ".Nodes", ".Individuals | {}", "Combine", ".Individuals | .Names", ".Individuals | .Spouses"}
+			for _, q1 := range fq {
+				for _, q2 := range fq {
+					for _, d := range []int{3, 4, 8 % nSmall} {
+						jobs = append(jobs, c15Job{q1 + "\x01" + q2, []int{d}, "f"})
+						c.Count("source=formatter-reuse")
+					}
+				}
+			}
+		}
 		// variable names that look reserved (DocumentN and its prefix, function / accessor / keyword
 		// names, `_`, digits) in direct and indirect self-reference, inside and outside Only(…) and
 		// objects, with one and with two documents
@@ -1208,7 +1423,8 @@ func init() {
 
 		// deeply nested queries (calls inside call arguments, objects inside objects, operator
 		// chains): parsing and evaluation must stay fast at any depth.  They are parsed in the child
-		// only, each in its own child with a short limit (the unchanged tree needs milliseconds).
+		// only, each in its own child (20 s, then once more alone with 60 s before it counts as a hang; the
+		// unchanged tree needs milliseconds).
 		depths := []int{20, 30, 40, 64}
 		if !c.Quick() {
 			depths = []int{8, 12, 16, 20, 24, 30, 40, 64, 100, 200}
@@ -1220,7 +1436,7 @@ func init() {
 				c.Count("source=deep-nesting")
 			}
 		}
-		deepObs := c15runJobsMin(pool, deepJobs, 6*time.Second, 1)
+		deepObs := c15runJobsMin(pool, deepJobs, 20*time.Second, 1)
 		for i, j := range deepJobs {
 			o := deepObs[i]
 			if o.Ast != "" {
@@ -1256,8 +1472,22 @@ func init() {
 			if o.Top == "value" && i%97 == 0 {
 				c.Sample(map[string]string{"query": j.Query, "type": o.Type, "formatters": o.Fmt})
 			}
-			if !(j.Mode == "d" && (o.Top == "timeout" || o.Top == "fatal")) { // a deep query that does not finish is reported by the oracle below
-				c.Tie(c15req(pool, j), o.line("c"))
+			if j.Mode != "f" && !(j.Mode == "d" && (o.Top == "timeout" || o.Top == "fatal")) { // a deep query that does not finish is reported by the oracle below
+				lm := "c"
+				if j.Mode == "j" || j.Mode == "r" {
+					lm = "j"
+				}
+				c.Tie(c15req(pool, j), o.line(lm))
+			}
+			if (j.Mode == "f" || j.Mode == "r") && o.Reuse != "same" && o.Reuse != "" {
+				what := "a formatter that has already written another result writes something else than a fresh one"
+				if j.Mode == "r" {
+					what = "a compiled query that was already evaluated gives another result than a freshly compiled one"
+				}
+				c.Oracle("", what, map[string]interface{}{"queries": strings.Split(j.Query, "\x01"), "documents": c15texts(pool, j.Docs)}, o.Reuse, "same")
+			}
+			if j.Mode == "f" {
+				continue
 			}
 			// (S) the property itself
 			in := map[string]interface{}{"query": j.Query, "query_hex": hex.EncodeToString([]byte(j.Query)), "documents": c15texts(pool, j.Docs)}
@@ -1274,12 +1504,8 @@ func init() {
 				key := ""
 				what := "evaluation kills the process or does not finish (" + o.Top + ")"
 				if j.Mode == "d" { // never parsed in this process: a hanging parser must not hang the harness
-					what = "parsing or evaluating a deeply nested query does not finish within 6 s (" + o.Top + ")"
+					what = "parsing or evaluating a deeply nested query does not finish (" + o.Top + " after 20 s and again after 60 s alone)"
 					in["nesting"] = strings.Count(j.Query, "(") + strings.Count(j.Query, "{") + strings.Count(j.Query, " = ")
-					if strings.HasPrefix(j.Query, "Combine(Combine(") && strings.Count(j.Query, "Combine(") >= 20 && o.Top == "timeout" {
-						// narrow matcher: Combine nested at least 20 deep inside first arguments
-						key = "combine-first-argument-twice"
-					}
 				} else if c15cyclic(j.Query) {
 					key = "variable-cycle"
 				}
